@@ -1287,6 +1287,160 @@ def records_to_dicts(tree, new_names):
     return len(classes)
 
 
+# ------------------------------------------------------------------ P16 a function that consults two event-family patterns becomes a chain
+def _kind_atom(e):
+    """(pattern name, subject text) when e is PAT_X.match(name) / .search(name) / name in X"""
+    if isinstance(e, ast.Call) and isinstance(e.func, ast.Attribute) and e.func.attr in ('match', 'search', 'fullmatch') \
+            and isinstance(e.func.value, ast.Name) and e.func.value.id.isupper() and len(e.args) == 1 and isinstance(e.args[0], ast.Name) and not e.keywords:
+        return (e.func.value.id, e.args[0].id)
+    return None
+
+
+def case_split_kinds(tree):
+    """P16.  A function whose top-level statements consult exactly two different patterns P, Q on the same unchanged name x (in the
+    tests of ifs, or held in boolean locals) is rewritten, from the first such statement on, as
+        if P.match(x): <rest, specialised for P matched>  elif Q.match(x): <rest, P failed and Q matched>  else: <rest, both failed>
+    where specialising means: the pattern tests and the locals that only hold them are replaced by their known truth values and
+    every if whose test is thereby decided is replaced by the branch taken.  The tests are pure, so evaluating them once more or
+    once less changes nothing; functions that already are such a chain are left alone.  Returns the number of functions rewritten."""
+    n_done = 0
+    for fn in [x for x in ast.walk(tree) if isinstance(x, ast.FunctionDef)]:
+        atoms = {}
+        for n in ast.walk(fn):
+            a = _kind_atom(n)
+            if a:
+                atoms.setdefault(a, []).append(n)
+        subjects = {a[1] for a in atoms}
+        pats = [a[0] for a in atoms]
+        if len(subjects) != 1 or len(set(pats)) != 2:
+            continue
+        subj = list(subjects)[0]
+        # first top-level statement that mentions an atom
+        i0 = None
+        for i, st in enumerate(fn.body):
+            if any(_kind_atom(x) for x in ast.walk(st)):
+                i0 = i
+                break
+        if i0 is None:
+            continue
+        # defaults set just before the first test (`points = 0`) belong to every arm
+        while i0 > 0 and isinstance(fn.body[i0 - 1], ast.Assign) and len(fn.body[i0 - 1].targets) == 1 \
+                and isinstance(fn.body[i0 - 1].targets[0], ast.Name) and isinstance(fn.body[i0 - 1].value, ast.Constant) \
+                and fn.body[i0 - 1].targets[0].id != subj:
+            i0 -= 1
+        tail = fn.body[i0:]
+        if any(isinstance(x, ast.Name) and x.id == subj and isinstance(x.ctx, (ast.Store, ast.Del)) for st in tail for x in ast.walk(st)):
+            continue
+        if any(isinstance(x, (ast.FunctionDef, ast.Lambda, ast.ClassDef, ast.Try, ast.While, ast.For, ast.With)) for st in tail for x in ast.walk(st)):
+            continue
+        # order of consultation = order of first occurrence
+        order = []
+        for st in tail:
+            for x in ast.walk(st):
+                a = _kind_atom(x)
+                if a and a[0] not in order:
+                    order.append(a[0])
+        # already an if / elif chain on the two atoms with nothing else mentioning them: leave it
+        first = next((st for st in tail if any(_kind_atom(x) for x in ast.walk(st))), tail[0])
+        if first is tail[0] and isinstance(first, ast.If) and _kind_atom(first.test) and len(first.orelse) == 1 and isinstance(first.orelse[0], ast.If) \
+                and _kind_atom(first.orelse[0].test) and sum(len(v) for v in atoms.values()) == 2:
+            continue
+        P_, Q_ = order[0], order[1]
+
+        def spec(stmts, known, names):
+            out = []
+            for st in stmts:
+                st = copy.deepcopy(st)
+                if isinstance(st, ast.Assign) and len(st.targets) == 1 and isinstance(st.targets[0], ast.Name):
+                    v = truth(st.value, known, names)
+                    if v is not None and any(_kind_atom(x) for x in ast.walk(st.value)):
+                        names[st.targets[0].id] = v
+                        continue
+                if isinstance(st, ast.If):
+                    v = truth(st.test, known, names)
+                    if v is True:
+                        out.extend(spec(st.body, known, names))
+                        continue
+                    if v is False:
+                        out.extend(spec(st.orelse, known, names))
+                        continue
+                    st.test = subst(st.test, known, names)
+                    st.body = spec(st.body, known, dict(names)) or [ast.Pass()]
+                    st.orelse = spec(st.orelse, known, dict(names))
+                    out.append(st)
+                    continue
+                out.append(substs(st, known, names))
+            return out
+
+        def truth(e, known, names):
+            a = _kind_atom(e)
+            if a:
+                return known.get(a[0])
+            if isinstance(e, ast.Name) and e.id in names:
+                return names[e.id]
+            if isinstance(e, ast.Constant) and isinstance(e.value, bool):
+                return e.value
+            if isinstance(e, ast.UnaryOp) and isinstance(e.op, ast.Not):
+                v = truth(e.operand, known, names)
+                return None if v is None else (not v)
+            if isinstance(e, ast.Call) and isinstance(e.func, ast.Name) and e.func.id == 'bool' and len(e.args) == 1:
+                return truth(e.args[0], known, names)
+            if isinstance(e, ast.Compare) and len(e.ops) == 1 and isinstance(e.ops[0], (ast.Is, ast.IsNot)) \
+                    and isinstance(e.comparators[0], ast.Constant) and e.comparators[0].value is None:
+                v = truth(e.left, known, names)
+                if v is None or not (_kind_atom(e.left) or (isinstance(e.left, ast.Name) and e.left.id in names)):
+                    return None
+                return (not v) if isinstance(e.ops[0], ast.Is) else v
+            if isinstance(e, ast.BoolOp):
+                vs = [truth(x, known, names) for x in e.values]
+                if isinstance(e.op, ast.And):
+                    if any(v is False for v in vs):
+                        return False
+                    return True if all(v is True for v in vs) else None
+                if any(v is True for v in vs):
+                    return True
+                return False if all(v is False for v in vs) else None
+            return None
+
+        class _S(ast.NodeTransformer):
+            def __init__(self, known, names):
+                self.known, self.names = known, names
+
+            def visit_IfExp(self, e):
+                v = truth(e.test, self.known, self.names)
+                if v is True:
+                    return self.visit(e.body)
+                if v is False:
+                    return self.visit(e.orelse)
+                self.generic_visit(e)
+                return e
+
+        def subst(e, known, names):
+            return _S(known, names).visit(e)
+
+        def substs(st, known, names):
+            return _S(known, names).visit(st)
+        try:
+            arm_p = spec(tail, {P_: True}, {})
+            arm_q = spec(tail, {P_: False, Q_: True}, {})
+            arm_n = spec(tail, {P_: False, Q_: False}, {})
+        except RecursionError:
+            continue
+        # every mention of the atoms / their locals must be gone from the arms that decide them
+        if any(_kind_atom(x) for st in arm_q + arm_n for x in ast.walk(st)) or any(
+                _kind_atom(x) and _kind_atom(x)[0] == P_ for st in arm_p for x in ast.walk(st)):
+            continue
+        def test_of(pat):
+            return copy.deepcopy(atoms[[a for a in atoms if a[0] == pat][0]][0])
+        chain = ast.If(test=test_of(P_), body=arm_p or [ast.Pass()],
+                       orelse=[ast.If(test=test_of(Q_), body=arm_q or [ast.Pass()], orelse=arm_n)])
+        ast.copy_location(chain, first)
+        fn.body[i0:] = [chain]
+        ast.fix_missing_locations(fn)
+        n_done += 1
+    return n_done
+
+
 # ------------------------------------------------------------------ P12 a module that did not exist then is folded back into its importer
 def _resolve_from(rel, node):
     """rel path of the module an ImportFrom in module `rel` names, or None"""
@@ -1415,10 +1569,11 @@ def fold_back_new_modules(d, baseline):
 # ------------------------------------------------------------------ driver
 # (name, control-flow form or None, rewrite .get lookups as membership tests)
 VIEWS = [('helpers', (None, False)), ('nested', ('nested', False)), ('flat', ('flat', False)),
-         ('lookups', (None, True)), ('lookups+nested', ('nested', True)), ('lookups+flat', ('flat', True))]
+         ('lookups', (None, True)), ('lookups+nested', ('nested', True)), ('lookups+flat', ('flat', True)),
+         ('kinds', (None, False, True)), ('kinds+nested', ('nested', False, True))]
 
 
-def normalise_source(src, rel, baseline, cf=None, lookups=True, renames=None, folded_names=()):
+def normalise_source(src, rel, baseline, cf=None, lookups=True, renames=None, folded_names=(), split=False):
     tree = ast.parse(src)
     n_ren = 0
     if renames:
@@ -1453,6 +1608,8 @@ def normalise_source(src, rel, baseline, cf=None, lookups=True, renames=None, fo
         get_found_to_membership(tree)
         get_default_to_if(tree)
         DictLiteralGet().visit(tree)
+    if split:
+        case_split_kinds(tree)
     if cf:
         apply_cf(tree, cf)
     if ast.dump(tree) != before:
@@ -1461,7 +1618,7 @@ def normalise_source(src, rel, baseline, cf=None, lookups=True, renames=None, fo
     return (ast.unparse(tree) + '\n') if changed else None
 
 
-def make_view(repo_root, cf=None, lookups=True):
+def make_view(repo_root, cf=None, lookups=True, split=False):
     """scratch copy of the tree with every athlib/*.py normalised; returns (dir, [files changed])"""
     baseline = load_baseline()
     d = tempfile.mkdtemp(prefix='athlib-view-')
@@ -1498,7 +1655,7 @@ def make_view(repo_root, cf=None, lookups=True):
             rel = os.path.relpath(p, d)
             try:
                 s = open(p, encoding='utf-8').read()
-                s2 = normalise_source(s, rel, baseline, cf, lookups, renames, folded_names.get(rel, ()))
+                s2 = normalise_source(s, rel, baseline, cf, lookups, renames, folded_names.get(rel, ()), split)
             except (SyntaxError, RecursionError, ValueError):
                 continue
             if s2 is not None:
